@@ -134,7 +134,14 @@ theorem equate_graphOK {c c' : Conv Rat} {a b : Qty Rat} (hg : GraphOK σ c)
     (hcons : a.mag.val * unitSz σ c.st a.unit = b.mag.val * unitSz σ c.st b.unit)
     (hx : CM.exec (equate a b) c = (.ok (), c')) :
     GraphOK σ c' ∧ Ext c.st c'.st ∧ c'.offsets = c.offsets ∧
-      (GraphWF c → c.st.dimOfUnit a.unit = c.st.dimOfUnit b.unit → GraphWF c') := by
+      (GraphWF c → c.st.dimOfUnit a.unit = c.st.dimOfUnit b.unit → GraphWF c') ∧
+      (∃ (A B : UId) (r1 r2 : Mag Rat),
+        A = (c.st.unprefixedUnit a.unit).2 ∧
+        B = ((c.st.unprefixedUnit a.unit).1.unprefixedUnit b.unit).2 ∧
+        A < c'.st.units.length ∧ B < c'.st.units.length ∧
+        c'.ratios = (c.ratios.set A B r1).set B A r2 ∧
+        r1.val = (Pfx.val (c.st.unit! b.unit).pfx * b.mag.val) / (Pfx.val (c.st.unit! a.unit).pfx * a.mag.val) ∧
+        r2.val = (Pfx.val (c.st.unit! a.unit).pfx * a.mag.val) / (Pfx.val (c.st.unit! b.unit).pfx * b.mag.val)) := by
   unfold equate at hx
   obtain ⟨s0, c0, h0, hx⟩ := exec_bind_ok hx
   rw [exec_getSt] at h0
@@ -212,7 +219,7 @@ theorem equate_graphOK {c c' : Conv Rat} {a b : Qty Rat} (hg : GraphOK σ c)
     have hrat : c'.ratios = (c2.ratios.set a'.unit b'.unit r1).set b'.unit a'.unit r2 := by rw [← hc', ← hc4]
     have hoffs : c'.offsets = c2.offsets := by rw [← hc', ← hc4]
     refine ⟨⟨by rw [hst]; exact g2.canon, by rw [hst]; exact g2.inv, by rw [hst]; exact g2.reg, by rw [hst]; exact g2.one, ?_, ?_⟩,
-      by rw [hst]; exact f12.ext, by rw [hoffs]; exact f12.offsets, ?_⟩
+      by rw [hst]; exact f12.ext, by rw [hoffs]; exact f12.offsets, ?_, ?_⟩
     · intro x y m hm
       rw [hrat] at hm
       rw [hst]
@@ -251,6 +258,11 @@ theorem equate_graphOK {c c' : Conv Rat} {a b : Qty Rat} (hg : GraphOK σ c)
           · exact Table.mem_keys_set_of_mem _ _ _ (Table.mem_keys_set_of_mem _ _ _ (w2.closed x y m hm))
           · exact Table.mem_keys_set_self _ _ _ _
         · exact Table.mem_keys_set_of_mem _ _ _ (Table.mem_keys_set_self _ _ _ _)
+    · refine ⟨a'.unit, b'.unit, r1, r2, hAu, ?_, by rw [hst]; exact hA2, by rw [hst]; exact hB2, ?_, ?_, ?_⟩
+      · rw [hBu, ← hc1]
+      · rw [hrat, f12.ratios]
+      · rw [v1, hAm, hBm]
+      · rw [v2, hAm, hBm]
 
 /-! ### histories -/
 
@@ -288,7 +300,7 @@ theorem reach_graphOK (hσ : ∀ k, σ k ≠ 0) {c : Conv Rat} (h : Reach σ c) 
     obtain ⟨g, f⟩ := units_graphOK ih.1 ops
     exact ⟨g, ih.2.1, ih.2.2.frame ih.1 f⟩
   | equate _ ha hb hc hdim hx ih =>
-    obtain ⟨g, _, ho, hw⟩ := equate_graphOK ih.1 ha hb hc hx
+    obtain ⟨g, _, ho, hw, _⟩ := equate_graphOK ih.1 ha hb hc hx
     exact ⟨g, by rw [ho]; exact ih.2.1, hw ih.2.2 hdim⟩
   | direct _ hq ht hx hp hne ih =>
     obtain ⟨_, d, c2', hfp, hd⟩ := convert_direct_exact hσ ih.1 hq ht ih.2.1 hx
